@@ -465,3 +465,48 @@ def edit_structured(rng, text, history=()):
         else:                                          # fall back to the rough operators
             lines = _edit_once(rng, lines, history)
     return ''.join(lines)
+
+
+# ---------------------------------------------------------------------------
+# elementary single-line edits (systematic sweeps over snippet x line x edit)
+# ---------------------------------------------------------------------------
+ELEMENTARY = ['blank-before', 'delete', 'duplicate', 'indent4', 'dedent4', 'ff-start', 'append-stmt', 'comment-out',
+              'indent1', 'join-next', 'ff-line-before', 'split']
+
+
+def elementary(text, i, kind):
+    lines = splitlines(text)
+    if not lines:
+        return 'x = 1\n'
+    i %= len(lines)
+    ln = lines[i]
+    pad = ln[:len(ln) - len(ln.lstrip(' \t\x0c'))]
+    if kind == 'blank-before':
+        lines[i:i] = ['\n']
+    elif kind == 'delete':
+        del lines[i]
+    elif kind == 'duplicate':
+        lines[i:i] = [ln if ln.endswith('\n') else ln + '\n']
+    elif kind == 'indent4':
+        lines[i] = '    ' + ln
+    elif kind == 'indent1':
+        lines[i] = ' ' + ln
+    elif kind == 'dedent4':
+        lines[i] = ln[min(4, len(pad)):]
+    elif kind == 'ff-start':
+        lines[i] = (pad[:-1] + '\x0c' if pad else '\x0c') + ln[len(pad):]
+    elif kind == 'append-stmt':
+        lines[i + 1:i + 1] = [pad + 'new_name = 1\n']
+        if not ln.endswith('\n'):
+            lines[i] = ln + '\n'
+    elif kind == 'comment-out':
+        lines[i] = pad + '# ' + ln[len(pad):]
+    elif kind == 'join-next':
+        if ln.endswith('\n'):
+            lines[i] = ln[:-1] + ' '
+    elif kind == 'ff-line-before':
+        lines[i:i] = ['\x0c\n']
+    elif kind == 'split':
+        k = len(ln) // 2
+        lines[i:i + 1] = [ln[:k] + '\n', ln[k:]]
+    return ''.join(lines)
